@@ -546,6 +546,9 @@ func (p *Parameter) parseABIParameterComponents(ctx context.Context) (tc *typeCo
 	suffix, arrays := splitElementaryTypeSuffix(abiTypeString, len(etStr))
 
 	if etStr == tupleTypeString {
+		if suffix != "" {
+			return nil, i18n.NewError(ctx, signermsgs.MsgUnsupportedABISuffix, suffix, abiTypeString, tupleTypeString)
+		}
 		tc = &typeComponent{
 			cType:         TupleComponent,
 			tupleChildren: make([]*typeComponent, len(p.Components)),
@@ -630,6 +633,10 @@ func parseMSuffix(ctx context.Context, abiTypeString string, ec *typeComponent, 
 	if err != nil {
 		return i18n.WrapError(ctx, err, signermsgs.MsgInvalidABISuffix, abiTypeString, ec.elementaryType)
 	}
+	if strconv.FormatUint(val, 10) != suffix {
+		// Only the canonical decimal form is part of the type grammar ("uint08" would give a different signature/selector)
+		return i18n.NewError(ctx, signermsgs.MsgInvalidABISuffix, abiTypeString, ec.elementaryType)
+	}
 	//nolint:gosec // we used bitSize on ParseUint above
 	ec.m = uint16(val)
 	if ec.m < ec.elementaryType.mMin || ec.m > ec.elementaryType.mMax {
@@ -646,6 +653,9 @@ func parseNSuffix(ctx context.Context, abiTypeString string, ec *typeComponent, 
 	val, err := strconv.ParseUint(suffix, 10, 16)
 	if err != nil {
 		return i18n.WrapError(ctx, err, signermsgs.MsgInvalidABISuffix, abiTypeString, ec.elementaryType)
+	}
+	if strconv.FormatUint(val, 10) != suffix {
+		return i18n.NewError(ctx, signermsgs.MsgInvalidABISuffix, abiTypeString, ec.elementaryType)
 	}
 	//nolint:gosec // we used bitSize on ParseUint above
 	ec.n = uint16(val)
